@@ -13,6 +13,7 @@ From Coq Require Import List Ascii ZArith Bool.
 From CGV Require Import Base.PyBase Base.PyVal Base.NxGraph Gen.WriterGen Dialect.DialectImpl Write.WriteImpl Write.FragDefs
      Write.FragCheck Write.FormatBondingSpec.
 From CGV Require Import Frag.NDict Frag.StripImpl Frag.FragText Write.FormatStripRound.
+From CGV Require Import Write.WriteProofs Write.PathRound Write.FragRead Write.CoarseChain Reader.Grammar Reader.ReaderImpl.
 Import ListNotations.
 Open Scope Z_scope.
 
@@ -50,6 +51,42 @@ Theorem C08_format_strip_roundtrip_coarse : forall fo nm (L : list dspec) a0,
              strip_bonding_descriptors fo (coarse_text nm ++ fb)
              = Ok (coarse_text nm, fold_left (fun d x => nd_append 0 (d_stored x) d) L [], [], nd_update 0 a0 []).
 Proof. exact format_strip_roundtrip_coarse. Qed.
+(** coarse fragment CHAINS, unbounded: for a chain of coarse nodes (names, descriptor lists with orders 0..3, bonds
+    of order 0..4, any length) write_graph(smiles_format=False) writes a text that the model of the coarse branch
+    of fragment_iter (strip_bonding_descriptors through the strip component's strip_correct, then
+    read_fragment_cgsmiles: the reader component's reader_sim_lin_nobrace + its post-processing) reads as the chain
+    numbered 0..n with the same names' attributes and bond orders, post-processed with exactly the descriptor dict
+    the chain carried.  The writer takes names from `fragname` (open class coarse_node_renamed is outside);
+    trees with a symbol on a branch edge are outside (the strip grammar has no symbol before "("). *)
+Theorem C08_coarse_chain_roundtrip : forall fo A a0 fragname k0 x0 (l : list (Z * Z * nodex)),
+  fragment_node_parser fo [] = Ok a0 ->
+  NoDup (k0 :: rest_keys (mk_restx l)) -> (forall k, In k (rest_keys (mk_restx l)) -> k0 <= k) ->
+  okn x0 -> Forall (fun y => 0 <= fst (fst y) <= 4 /\ okn (snd y)) l ->
+  Forall (fun n => name_ok fo n = true) (path_names (fst x0) (plainl l)) ->
+  Forall (fun n => parse_graph_base_node fo n = Ok (A n)) (path_names (fst x0) (plainl l)) ->
+  exists txt, write_graph false (fun _ => true) (path_graph k0 (fattrs x0) (mk_restx l)) [] = Ok txt
+    /\ read_coarse_fragment fo fragname txt
+       = (let sp := cspec a0 sinit x0 l in
+          let g := nx_build A (fst x0) (plainl l) in
+          let g1 := set_nodes_from g (S "atomname") (get_node_attributes g (S "fragname")) in
+          let g2 := set_nodes_from g1 (S "bonding") (bonding_values (s_desc sp)) in
+          let g3 := set_all_nodes g2 (S "fragname") (VStr fragname) in
+          let g4 := set_all_nodes g3 (S "fragid") (VInt 0) in
+          let g5 := set_all_nodes g4 (S "w") (VInt 1) in
+          Ok (update_nodes_from g5 (node_updates (s_ann sp)))).
+Proof. exact coarse_chain_roundtrip. Qed.
+Example C08_coarse_chain_nonvacuous :
+  write_graph false (fun _ => true) (path_graph 3 (fattrs ex_x0) (mk_restx ex_l)) [] = Ok (S "[#A][$a]=[>]=[#B].[!x].[#PEO][#A]#[<]")
+  /\ match read_coarse_fragment (fun _ => None) (S "X") (S "[#A][$a]=[>]=[#B].[!x].[#PEO][#A]#[<]") with
+     | Ok g => map (fun n => (nk n, aget (S "atomname") (na n), aget (S "bonding") (na n), aget (S "fragname") (na n))) g
+               = [(0, Some (VStr (S "A")), Some (VList [VStr (S "$a1"); VStr (S ">2")]), Some (VStr (S "X")));
+                  (1, Some (VStr (S "B")), Some (VList [VStr (S "!x0")]), Some (VStr (S "X")));
+                  (2, Some (VStr (S "PEO")), None, Some (VStr (S "X")));
+                  (3, Some (VStr (S "A")), Some (VList [VStr (S "<3")]), Some (VStr (S "X")))]
+     | Err _ => False
+     end.
+Proof. exact coarse_chain_example. Qed.
+
 Theorem C08_descriptors_on_atom0 : forall L : list dspec, L <> [] ->
   fold_left (fun d x => nd_append 0 (d_stored x) d) L [] = [(0%nat, map d_stored L)].
 Proof. exact descs_on_atom0. Qed.
@@ -68,4 +105,5 @@ Print Assumptions C08_format_bonding_order1.
 Print Assumptions C08_format_bonding_single.
 Print Assumptions C08_format_strip_roundtrip.
 Print Assumptions C08_format_strip_roundtrip_coarse.
+Print Assumptions C08_coarse_chain_roundtrip.
 Print Assumptions C08_descriptors_on_atom0.
